@@ -424,7 +424,7 @@ func run(c *hc.Ctx) error {
 	}
 
 	// ---- 1. clock scripts through MessageIDGen.New
-	nScripts := c.N(12000, 300000)
+	nScripts := c.N(12000, 120000)
 	for i := 0; i < nScripts; i++ {
 		n := hc.Pick(r, 1, 2, 3, r.Range(2, 12), r.Range(2, 12), r.Range(10, 60), r.Range(10, 60), r.Range(60, 300))
 		if r.Chance(2) {
@@ -455,7 +455,7 @@ func run(c *hc.Ctx) error {
 	}
 
 	// ---- 2. NewMessageIDNano and MessageID.Time/Type on single values
-	nSingles := c.N(60000, 1500000)
+	nSingles := c.N(60000, 1000000)
 	for i := 0; i < nSingles; i++ {
 		nano := baseNano(r)
 		typ := proto.MessageType(r.Intn(4))
